@@ -425,6 +425,7 @@ fn extra_programs() -> Vec<ArgCase> {
             out.push(ArgCase { prog: Prog { main, subs, declare: true, ..Default::default() }, label: format!("STATIC subprogram calling itself, depth {}: {}", depth, label), expect_reject: false });
         }
     }
+    out.extend(wide_and_deep_programs());
     for depth in 0..=3 {
         let mut b = B::new();
         // FUNCTION Sum%(N%): a local per activation must survive the recursive call
@@ -440,6 +441,160 @@ fn extra_programs() -> Vec<ArgCase> {
         let f = SubDef { id, name: "Sum%".into(), is_function: true, params: vec![Param { name: "N%".into(), ty: None, is_array: false }], body, is_static: false };
         let main = vec![b.assign(var("L%"), num(99)), b.print(vec![call("Sum%", vec![num(depth)])]), b.print(vec![var("L%")])];
         out.push(ArgCase { prog: Prog { main, subs: vec![f], declare: true, ..Default::default() }, label: format!("recursion depth {}", depth), expect_reject: false });
+    }
+    out
+}
+
+/// Size ladders: subprograms with many parameters (every mix of by-reference and by-value arguments
+/// for up to 4 parameters, characteristic mixes up to 16), call chains and recursion far deeper than the
+/// shape enumeration goes, many distinct subprograms, many locals per activation.
+fn wide_and_deep_programs() -> Vec<ArgCase> {
+    const TYS: [Ty; 5] = [Ty::Int, Ty::Long, Ty::Single, Ty::Double, Ty::Str];
+    let mut out = vec![];
+    let bump = |t: Ty, i: usize, e: Expr| -> Expr {
+        match t {
+            Ty::Str => bin(BinOp::Add, e, st(&format!("+{}", i))),
+            _ => bin(BinOp::Add, e, num(i as i64 + 1)),
+        }
+    };
+    for n in [1usize, 2, 3, 4, 5, 6, 7, 8, 9, 10, 12, 16] {
+        // masks: bit i set = argument i is a variable (by reference), clear = an expression (by value)
+        let mut masks: Vec<u32> = vec![];
+        if n <= 4 {
+            masks.extend(0..(1u32 << n));
+        } else {
+            let all = (1u32 << n) - 1;
+            masks.push(all);
+            masks.push(0);
+            masks.push(0x5555_5555 & all);
+            masks.push(0xAAAA_AAAA & all);
+            for i in 0..n {
+                masks.push(all & !(1 << i));
+            }
+            masks.push(1 << (n - 1));
+            masks.push(1);
+        }
+        for function in [false, true] {
+            for (mi, mask) in masks.iter().enumerate() {
+                // FUNCTION forms only for a few masks of the wide signatures
+                if function && n > 4 && mi > 3 {
+                    continue;
+                }
+                let mut b = B::new();
+                let ty = |i: usize| TYS[(i + n) % 5];
+                let params: Vec<Param> = (0..n).map(|i| Param { name: format!("P{}{}", i, ty(i).suffix()), ty: None, is_array: false }).collect();
+                let mut body = vec![];
+                // the callee prints what it received, then changes every parameter, last to first
+                body.push(b.print((0..n).map(|i| tv(&format!("P{}", i), ty(i))).collect()));
+                for i in (0..n).rev() {
+                    let pv = tv(&format!("P{}", i), ty(i));
+                    body.push(b.assign(pv.clone(), bump(ty(i), i, pv)));
+                }
+                let name = if function { "Wide%" } else { "Wide" };
+                if function {
+                    body.push(b.assign(var("Wide%"), num(n as i64)));
+                }
+                let id = b.id();
+                let sub = SubDef { id, name: name.into(), is_function: function, params, body, is_static: false };
+                let mut main = vec![];
+                for i in 0..n {
+                    main.push(b.assign(tv(&format!("V{}", i), ty(i)), val(ty(i), i as i64 + 1)));
+                }
+                let args: Vec<Expr> = (0..n)
+                    .map(|i| {
+                        let v = tv(&format!("V{}", i), ty(i));
+                        if mask & (1 << i) != 0 {
+                            v
+                        } else {
+                            match ty(i) {
+                                Ty::Str => bin(BinOp::Add, v, st("")),
+                                _ => Expr::Paren(Box::new(v)),
+                            }
+                        }
+                    })
+                    .collect();
+                if function {
+                    main.push(b.print(vec![call(name, args.clone())]));
+                } else {
+                    main.push(b.s(K::Call(name.into(), args.clone())));
+                }
+                main.push(b.print((0..n).map(|i| tv(&format!("V{}", i), ty(i))).collect()));
+                // a second call: the write-backs of the first must not linger
+                if function {
+                    main.push(b.print(vec![call(name, args)]));
+                } else {
+                    main.push(b.s(K::Call(name.into(), args)));
+                }
+                main.push(b.print((0..n).map(|i| tv(&format!("V{}", i), ty(i))).collect()));
+                out.push(ArgCase {
+                    prog: Prog { main, subs: vec![sub], declare: true, ..Default::default() },
+                    label: format!("{} parameters, by-reference mask {:#b}, {}", n, mask, if function { "FUNCTION" } else { "SUB" }),
+                    expect_reject: false,
+                });
+            }
+        }
+    }
+    // call chains: Chain0 calls Chain1 ... each passes its parameter on by reference and has a local
+    for depth in [2usize, 5, 9, 17, 33] {
+        let mut b = B::new();
+        let mut subs = vec![];
+        for d in 0..depth {
+            let mut body = vec![b.assign(var("L%"), num(d as i64 * 3 + 1))];
+            if d + 1 < depth {
+                body.push(b.s(K::Call(format!("Chain{}", d + 1), vec![var("N%"), bin(BinOp::Add, var("K%"), num(1))])));
+            } else {
+                body.push(b.print(vec![st("bottom"), var("N%"), var("K%")]));
+            }
+            body.push(b.assign(var("N%"), bin(BinOp::Add, var("N%"), var("L%"))));
+            if d % 4 == 0 {
+                body.push(b.print(vec![num(d as i64), var("N%"), var("K%"), var("L%")]));
+            }
+            let id = b.id();
+            subs.push(SubDef {
+                id,
+                name: format!("Chain{}", d),
+                is_function: false,
+                params: vec![Param { name: "N%".into(), ty: None, is_array: false }, Param { name: "K%".into(), ty: None, is_array: false }],
+                body,
+                is_static: d % 3 == 2,
+            });
+        }
+        let main = vec![b.assign(var("X%"), num(1)), b.s(K::Call("Chain0".into(), vec![var("X%"), num(0)])), b.print(vec![var("X%")]), b.s(K::Call("Chain0".into(), vec![var("X%"), num(0)])), b.print(vec![var("X%")])];
+        out.push(ArgCase { prog: Prog { main, subs, declare: true, ..Default::default() }, label: format!("call chain of {} subprograms (every third STATIC)", depth), expect_reject: false });
+    }
+    // deep recursion with a local and a by-reference accumulator
+    for depth in [8i64, 20, 50, 120] {
+        let mut b = B::new();
+        let inner = b.s(K::Call("Down".into(), vec![bin(BinOp::Sub, var("N%"), num(1)), var("Acc&")]));
+        let body = vec![
+            b.assign(var("L%"), var("N%")),
+            b.s(K::If { arms: vec![(bin(BinOp::Gt, var("N%"), num(0)), vec![inner])], els: None, single_line: false }),
+            b.assign(var("Acc&"), bin(BinOp::Add, var("Acc&"), var("L%"))),
+        ];
+        let id = b.id();
+        let sub = SubDef { id, name: "Down".into(), is_function: false, params: vec![Param { name: "N%".into(), ty: None, is_array: false }, Param { name: "Acc&".into(), ty: None, is_array: false }], body, is_static: false };
+        let main = vec![b.assign(var("T&"), num(0)), b.s(K::Call("Down".into(), vec![num(depth), var("T&")])), b.print(vec![var("T&")])];
+        out.push(ArgCase { prog: Prog { main, subs: vec![sub], declare: true, ..Default::default() }, label: format!("recursion depth {} with a local and a by-reference accumulator", depth), expect_reject: false });
+    }
+    // many locals in one activation, next to as many module-level variables of the same names
+    for count in [4usize, 12, 40] {
+        let mut b = B::new();
+        let mut body = vec![];
+        for i in 0..count {
+            body.push(b.assign(tv(&format!("W{}", i), TYS[i % 5]), val(TYS[i % 5], 50 + i as i64)));
+        }
+        body.push(b.print((0..count).step_by(count / 4).map(|i| tv(&format!("W{}", i), TYS[i % 5])).collect()));
+        let id = b.id();
+        let sub = SubDef { id, name: "Many".into(), is_function: false, params: vec![], body, is_static: false };
+        let mut main = vec![];
+        for i in 0..count {
+            main.push(b.assign(tv(&format!("W{}", i), TYS[i % 5]), val(TYS[i % 5], i as i64)));
+        }
+        main.push(b.s(K::Call("Many".into(), vec![])));
+        for chunk in (0..count).collect::<Vec<_>>().chunks(6) {
+            main.push(b.print(chunk.iter().map(|i| tv(&format!("W{}", i), TYS[i % 5])).collect()));
+        }
+        out.push(ArgCase { prog: Prog { main, subs: vec![sub], declare: true, ..Default::default() }, label: format!("{} locals shadowing {} module-level variables", count, count), expect_reject: false });
     }
     out
 }
